@@ -268,6 +268,16 @@ _POOL_READ = {
 _CONN_ATTR = {"_proxy": "proxy"}  # pool keyword -> attribute of the connection it configures
 
 
+def _retries_eq(got, want):
+    """retries may legitimately be normalised from an int to the equivalent Retry object on
+    the way down (Retry.from_int semantics: total=n, nothing else set)"""
+    if got is want:
+        return True
+    if isinstance(want, int) and isinstance(got, Retry):
+        return got.total == want and got.redirect is None and got.connect is None and got.read is None
+    return _veq(got, want)
+
+
 def _veq(got, want):
     """equal and of the same type (so that 1 == True or 'a' == b'a' style coincidences
     cannot hide a swap); identity for objects without value equality"""
@@ -297,7 +307,7 @@ def readback(pool, conn, conn_err, scheme, k, vid, pool_level_only=False):
         except Exception as e:  # attribute vanished: a read-back failure, not a harness error
             got = "<%s>" % type(e).__name__
         exp = _TIMEOUT_EXPECT[vid] if k == "timeout" else want
-        if not _veq(got, exp):
+        if not (_retries_eq(got, exp) if k == "retries" else _veq(got, exp)):
             problems.append("pool-level %s is %r, asked for %r" % (k, got, exp))
     attr = _CONN_ATTR.get(k, k if k in u.conn_params[scheme] else None)
     if attr is not None and pool_level_only:
@@ -341,9 +351,10 @@ def base_items(spec):
     if kind == "empty":
         return []
     if kind == "rich":
-        # every keyword that is a pool-key field and that this scheme's classes accept
+        # every statement-named setting that is a pool-key field and that this scheme's
+        # classes accept (so a TypeError in a rich case can only be about the varied keyword)
         s = spec["scheme"]
-        items = [(k, "A") for k in u.key_kw if u.applicable(s, k) and k != k0]
+        items = [(k, "A") for k in u.key_kw if u.applicable(s, k) and k in MUST_KEY and k != k0]
     elif kind == "common":
         items = [(k, "A") for k in ("timeout", "headers", "socket_options", "retries", "ca_certs", "cert_reqs")
                  if k in u.key_kw]
@@ -453,6 +464,11 @@ def _run_sequence(spec, acc, memo):
             if not pk and kv == "inherit":
                 pk = None
         present = [k for k, _ in base] + ([K] if K is not None and eff != "absent" else [])
+        # how each setting of this call reaches the request context: from the manager's
+        # constructor or explicitly with the call
+        route = {k: ("ctor" if entry != "context" and via == "ctor" else "explicit") for k, _ in base}
+        if K is not None and eff != "absent":
+            route[K] = "ctor" if kv == "inherit" else "explicit"
         asked = dict(base)
         if K is not None and eff != "absent":
             asked[K] = eff
@@ -468,7 +484,7 @@ def _run_sequence(spec, acc, memo):
             pool, kind, exc = None, "TypeError", e
         except Exception as e:  # noqa: BLE001 - every other class is a finding or an either region
             pool, kind, exc = None, "exc:" + type(e).__name__, e
-        rec = {"kind": kind, "pool": pool, "canon": canon, "eff": eff, "loc": loc, "entry": entry, "kv": kv}
+        rec = {"kind": kind, "pool": pool, "canon": canon, "eff": eff, "loc": loc, "entry": entry, "kv": kv, "route": route}
         results.append(rec)
 
         # ---- clause: per-request overrides never alter the manager's own defaults
@@ -588,6 +604,14 @@ def _run_sequence(spec, acc, memo):
             if q["canon"] == r["canon"]:
                 if same:
                     acc.counters["same_as_expected"] += 1
+                    if q["route"] != r["route"]:
+                        acc.counters["either:delivery_route_differs:same"] += 1
+                elif q["route"] != r["route"]:
+                    # EITHER: equal settings, one set taken from the manager's constructor and
+                    # the other given explicitly.  The manager may keep its defaults in a
+                    # normalised form (e.g. retries=2 as a Retry object), so the two may key
+                    # differently; two pools for equal settings are never unsafe.
+                    acc.counters["either:delivery_route_differs:split"] += 1
                 else:
                     acc.violation("split-pool",
                                   {"kw": K, "scheme": sl, "differs": _loc_diff(q["loc"], r["loc"]) or ["nothing"],
@@ -646,12 +670,17 @@ def kw_calls(scheme, k):
     return calls
 
 
-def kw_configs(scheme, k):
+def kw_configs(scheme, k, triples=False):
+    """(base settings, how the base is delivered, constructor default of K).  All six
+    combinations for 2-call cases; 3-call cases (thorough) use the four that differ in more
+    than the default alone, the thorough tier runs the 2-call cases of all six as well."""
     u = universe()
     out = []
     for base, via in (("empty", "ctor"), ("rich", "ctor"), ("rich", "kwargs")):
         for d in ("absent", "A"):
             if d != "absent" and k in u.manager_named:
+                continue
+            if triples and (base, via, d) in (("rich", "ctor", "absent"), ("rich", "kwargs", "A")):
                 continue
             out.append((base, via, d))
     return out
@@ -718,8 +747,11 @@ def run(ctx):
     tasks = []
     for s in SCHEMES:
         for k in u.keywords:
-            for base, via, d in kw_configs(s, k):
+            for base, via, d in kw_configs(s, k, triples=ctx.thorough):
                 tasks.append(("kw", s, k, base, via, d, n))
+            if ctx.thorough:  # thorough includes every quick case
+                for base, via, d in kw_configs(s, k):
+                    tasks.append(("kw", s, k, base, via, d, 2))
     triples = ctx.thorough
     nloc = len(loc_calls(triples))
     for base, via in LOC_CONFIGS:
@@ -774,6 +806,7 @@ def run(ctx):
                 "request contexts or spellings); cases are distinct tuples by construction." % n,
         "exhaustive": True,
         "sequence_length": n,
+        "also_all_2_call_cases": bool(ctx.thorough),
         "keyword_universe": u.keywords,
         "keyword_universe_size": len(u.keywords),
         "signature_parameter_counts": u.signature_sizes,
